@@ -197,7 +197,14 @@ def run(c, prog):
     else:
         c.ok(R, "transpose")
     # --- normal id table from to_normal_id: arms (Some(x),Some(0),Some(0)) => get_normal_id(0,x) ...; get_normal_id: 1=>pos, -1=>pos+K
-    gfn = [f for f in prog.find_fns(r"Vector3::to_normal_id::get_normal_id$")]
+    # the helper is whatever function the arms of to_normal_id call with (position literal, component) — nested in
+    # to_normal_id, at module level or an associated function alike
+    callees = set()
+    for arm in tables.top_match(nid_fn)["arms"]:
+        b = core.strip(arm["body"])
+        if b.get("k") == "Call" and len(b["args"]) == 2 and core.lit_value(b["args"][0]) is not None:
+            callees.add(core.callee(b))
+    gfn = [prog.fns[p_] for p_ in callees if p_ in prog.fns and prog.fns[p_].body is not None]
     if len(gfn) != 1:
         raise core.AnchorMissing("get_normal_id helper not found")
     gm, _, _ = tables.simple_map(gfn[0])
@@ -287,7 +294,7 @@ def run(c, prog):
     # --- the third axis: the id is derived from columns x and y only, so the z column must be compared with the candidate's
     ok = False
     for n in core.walk_fn(to):
-        if n.get("k") == "Binary" and n["op"] == "==":
+        if n.get("k") == "Binary" and n["op"] in ("==", "!="):
             vs = []
             for sd in (n["l"], n["r"]):
                 sd0 = core.strip(sd)
@@ -309,12 +316,23 @@ def run(c, prog):
                     if cond.get("k") == "Binary" and cond["op"] == "&&":
                         return decisive(cond["l"]) or decisive(cond["r"])
                     return False
+                def has_some(e):
+                    return any(x.get("k") == "Call" and x["f"].get("def") == "core::option::Option::Some" for x in core.walk(e))
+
+                def has_none(e):
+                    return any(x.get("k") == "Path" and x.get("def") == "core::option::Option::None" for x in core.walk(e))
                 for m in core.walk_fn(to):
                     if m.get("k") == "If" and decisive(m["c"]):
-                        t_some = any(x.get("k") == "Call" and x["f"].get("def") == "core::option::Option::Some" for x in core.walk(m["t"]))
-                        f_none = "f" in m and any(x.get("k") == "Path" and x.get("def") == "core::option::Option::None" for x in core.walk(m["f"]))
-                        ok = ok or (t_some and f_none)
-                    if m.get("k") == "MethodCall" and m["m"] in ("then_some", "then") and decisive(m["recv"]):
+                        inside = {id(x) for x in core.walk(m)}
+                        rest_some = any(x.get("k") == "Call" and x["f"].get("def") == "core::option::Option::Some" and id(x) not in inside for x in core.walk_fn(to))
+                        rest_none = any(x.get("k") == "Path" and x.get("def") == "core::option::Option::None" and id(x) not in inside for x in core.walk_fn(to))
+                        if n["op"] == "==":
+                            # `if eq { Some(id) } else { None }`, or the guard-clause `if eq { return Some(id) } None`
+                            ok = ok or (has_some(m["t"]) and not has_none(m["t"]) and ((("f" in m) and has_none(m["f"]) and not has_some(m["f"])) or ("f" not in m and rest_none)))
+                        else:
+                            # `if ne { return None }  Some(id)` / `if ne { None } else { Some(id) }`
+                            ok = ok or (has_none(m["t"]) and not has_some(m["t"]) and ((("f" in m) and has_some(m["f"])) or ("f" not in m and rest_some)))
+                    if m.get("k") == "MethodCall" and m["m"] in ("then_some", "then") and decisive(m["recv"]) and n["op"] == "==":
                         ok = True
     # the candidate is the rotation for the id being returned
     if ok:
